@@ -14,6 +14,7 @@ def run(ctx):
     pr.rule_acyclic(ctx, "R10.3", reach, "GdsLibrary::from_bytes/open", ["gds21::", "layout21utils::"])
     gr.rule_exact_reads(ctx, None, "R10.6")
     gr.rule_repeatable_records(ctx, None, "R10.7")
+    gr.rule_strings_are_utf8(ctx, None, "R10.8")
     cg = pr.callgraph(F)
 
     # ---- R10.2 loop progress
